@@ -17,7 +17,7 @@ def register(claim):
           "(cohdl.evaluated()) on every run", "DESIGN.md 3/C10")
     claim("C11",
           "Generated compilation histories (compile / re-exec'd copy / same object again over parametrised pools of 28 valid "
-          "and 27 differently-rejected tops; complete enumeration of ordered pairs rejected x valid, sampled valid x valid, and "
+          "and 27 differently-rejected tops; enumeration of ordered pairs rejected x valid and valid x valid (complete in thorough, every third in quick), and "
           "PYTHONHASHSEED in {0,1,2,12345,...}) compared byte-for-byte with the output of a fresh interpreter compiling only "
           "that design; causes are reduced to a minimal set of preceding rejected stages by re-running sub-histories in fresh "
           "interpreters. Exploration: pools and history length are bounded.",
